@@ -70,7 +70,8 @@ def tables():
     head, rows = _read(os.path.join(d, "FAOSTAT_head_and_slaughter.csv"), "iso3")
     _T["head_cols"] = [c for c in head if c.endswith("_head")]
     _T["types"] = [c[: -len("_head")] for c in _T["head_cols"]]
-    _T["stock"] = {k: {c: float(v) for c, v in r.items() if c not in ("iso3", "country")} for k, r in rows.items()}
+    _T["stock"] = {k: {c: (float(v) if v != "" else float("nan")) for c, v in r.items() if c not in ("iso3", "country")}
+                   for k, r in rows.items()}  # empty cells (e.g. SGP ruminants) read as NaN, as pandas does
     _, at = _read(os.path.join(d, "species_attributes.csv"), "animal")
     _T["attrs"] = {
         k: {"digestion": r["digestion type"], "size": r["animal size"], "LSU": float(r["LSU"]),
@@ -170,7 +171,7 @@ def per_head_kcal(table, animal_type):
 def pick_code(rng):
     t = tables()
     if rng.chance(0.3):
-        return rng.pick(SPECIAL)
+        return rng.pick([c for c in SPECIAL if c == "WOR" or c in t["country_rows"]])
     return rng.pick(t["codes"])
 
 
@@ -473,6 +474,7 @@ def execute(spec, prop, monitor):
     d = world.enter_history("%s-%s" % (prop.lower(), spec["h"]))
     violations, nontrivial, clauses, probes, statuses, max_resid = [], [], {}, {}, {}, {}
     sim_months = aborts = evaluations = 0
+    seen_classes = set()
     cache = TableCache().install()
     try:
         for i, run in enumerate(spec["runs"]):
@@ -513,6 +515,10 @@ def execute(spec, prop, monitor):
                 max_resid[k] = max(max_resid.get(k, 0.0), r)
             for v in V.violations:
                 log.add("MONITOR", prop=prop, clause=v.clause, identity=v.identity)
+                key = (v.clause, core.digest(v.identity))
+                if key in seen_classes:  # one witness per violation class and history
+                    continue
+                seen_classes.add(key)
                 v.witness = {"run": i, "country": run["country"], "strategy": run["strategy"], "months": run["months"],
                              "order": run["order"], "heads": run["heads"], "nontrivial": nt, "data": v.witness}
                 violations.append(v.to_json())
